@@ -16,6 +16,7 @@ import (
 	"strings"
 	"time"
 
+	apicommon "github.com/enfein/mieru/v3/apis/common"
 	"github.com/enfein/mieru/v3/pkg/appctl/appctlpb"
 	"github.com/enfein/mieru/v3/pkg/egress"
 	"github.com/enfein/mieru/v3/pkg/socks5"
@@ -148,6 +149,9 @@ func (c *cfg) server(mode socks5.UDPAssociateMode) *socks5.Server {
 		Users: users, Egress: eg, AllowLoopbackDestination: c.allowLoop,
 		AuthOpts:         socks5.Auth{ClientSideAuthentication: true},
 		HandshakeTimeout: 2 * time.Second, UDPAssociateMode: mode,
+		Resolver: apicommon.HostMapResolver{Hosts: map[string]net.IP{
+			"localhost": net.IPv4(127, 0, 0, 1), "example.com": net.IPv4(192, 0, 2, 2), "a.example.com": net.IPv4(192, 0, 2, 2), "pub.test": net.IPv4(192, 0, 2, 2),
+		}},
 	})
 	if err != nil {
 		panic(err)
@@ -614,18 +618,6 @@ func endToEnd(r *vh.Run) {
 			c.Close()
 		}
 	}()
-	got := make(chan []byte, 256)
-	go func() {
-		buf := make([]byte, 2048)
-		for {
-			n, _, err := sk.udp.ReadFromUDP(buf)
-			if err != nil {
-				return
-			}
-			got <- append([]byte(nil), buf[:n]...)
-		}
-	}()
-
 	c := &cfg{allowLoop: false, users: stdUsers, order: stdOrder}
 	local := []dest{
 		{1, []byte{127, 0, 0, 1}, "loop/v4"}, {1, []byte{127, 255, 255, 254}, "loop-last/v4"}, {4, mapped([]byte{127, 0, 0, 1}), "loop/mapped"},
@@ -686,81 +678,265 @@ func endToEnd(r *vh.Run) {
 		}
 	}
 
-	// UDP association through the real server (packet-over-stream mode, the one mieru uses):
-	// ASSOCIATE to the public stand-in, then datagrams to every local destination, then a sentinel.
+	relayEndToEnd(r, c, hasPriv, hasPub)
+}
+
+// ---------------------------------------------------------------- UDP associations through the real server
+
+// A listener bound to one specific local address and one port. Every datagram of a sequence has its own
+// port, and every port has a listener on every local address, so a datagram that is sent anywhere on this
+// host is seen, together with the address it really went to - whatever its header named.
+type arrival struct {
+	kind string // loop | priv | pub : the class of the address the datagram ARRIVED at
+	addr string
+	port int
+	idx  int // index carried in the payload
+}
+
+var listenAddrs = []struct{ kind, ip string }{
+	{"loop", "127.0.0.1"}, {"loop", "127.255.255.254"}, {"loop", "::1"}, {"priv", "fd00::2"}, {"pub", "192.0.2.2"},
+}
+
+// openPort binds one port on every local address; nil if some bind fails.
+func openPort(hasPriv bool, out chan<- arrival) (int, []*net.UDPConn) {
+	for try := 0; try < 50; try++ {
+		first, err := net.ListenUDP("udp", &net.UDPAddr{IP: net.ParseIP("127.0.0.1"), Port: 0})
+		if err != nil {
+			return 0, nil
+		}
+		port := first.LocalAddr().(*net.UDPAddr).Port
+		conns := []*net.UDPConn{first}
+		ok := true
+		for _, la := range listenAddrs[1:] {
+			if la.kind == "priv" && !hasPriv {
+				continue
+			}
+			u, err := net.ListenUDP("udp", &net.UDPAddr{IP: net.ParseIP(la.ip), Port: port})
+			if err != nil {
+				ok = false
+				break
+			}
+			conns = append(conns, u)
+		}
+		if !ok {
+			for _, u := range conns {
+				u.Close()
+			}
+			continue
+		}
+		i := 0
+		for _, la := range listenAddrs {
+			if la.kind == "priv" && !hasPriv {
+				continue
+			}
+			u, la := conns[i], la
+			i++
+			go func() {
+				buf := make([]byte, 2048)
+				for {
+					n, _, err := u.ReadFromUDP(buf)
+					if err != nil {
+						return
+					}
+					if n == 2 && buf[0] == 'P' {
+						out <- arrival{la.kind, la.ip, port, int(buf[1])}
+					}
+				}
+			}()
+		}
+		return port, conns
+	}
+	return 0, nil
+}
+
+// the class of the address a correct relay sends a datagram with this header to
+func expectKind(d dest) string {
+	cl := classify(d)
+	switch {
+	case cl.priv:
+		return "priv"
+	case cl.loop:
+		return "loop"
+	}
+	return "pub" // 192.0.2.2 and the test domains, which the resolver maps to 192.0.2.2
+}
+
+func relayEndToEnd(r *vh.Run, c *cfg, hasPriv, hasPub bool) {
 	if !hasPub {
 		return
 	}
-	for _, u := range userNames {
-		s := c.server(socks5.UDPAssociateModePacketOverStream)
-		cli, srv := net.Pipe()
-		done := make(chan struct{})
-		go func() { s.ServeConn(userConn{srv, u}); close(done) }()
-		cli.SetDeadline(time.Now().Add(5 * time.Second))
-		req := append([]byte{5, 3, 0}, pub.withPort(sk.port)...)
-		go cli.Write(req)
-		rep := make([]byte, 10)
-		if _, err := io.ReadFull(cli, rep); err != nil || rep[1] != 0 {
-			failOnce(r, "allowed-associate-affected", fmt.Sprintf("UDP ASSOCIATE to the public stand-in by %q refused: %v %v", u, rep, err), map[string]interface{}{"user": u})
-			cli.Close()
-			<-done
-			continue
+	loop4 := dest{1, []byte{127, 0, 0, 1}, "loop/v4"}
+	loopLast := dest{1, []byte{127, 255, 255, 254}, "loop-last/v4"}
+	loopM := dest{4, mapped([]byte{127, 0, 0, 1}), "loop/mapped"}
+	loop6 := dest{4, net.ParseIP("::1").To16(), "loop6/v6"}
+	un4 := dest{1, []byte{0, 0, 0, 0}, "unspec/v4"}
+	unM := dest{4, mapped([]byte{0, 0, 0, 0}), "unspec/mapped"}
+	un6 := dest{4, net.ParseIP("::").To16(), "unspec6/v6"}
+	empty := dest{3, nil, "empty-host"}
+	priv6 := dest{4, net.ParseIP("fd00::2").To16(), "priv6/v6"}
+	pub := dest{1, []byte{192, 0, 2, 2}, "pub-192.0.2.2/v4"}
+	pubM := dest{4, mapped([]byte{192, 0, 2, 2}), "pub-192.0.2.2/mapped"}
+	name := func(s string) dest {
+		if strings.EqualFold(s, "localhost") {
+			return dest{3, []byte(s), "name:localhost"}
 		}
-		var pkts []string
-		seq := append(append([]dest{}, local...), pub)
-		go func() {
-			for i, d := range seq {
-				p := append([]byte{0, 0, 0}, d.withPort(sk.port)...)
-				p = append(p, 'P', byte(i))
-				f := append([]byte{0, byte(len(p) >> 8), byte(len(p))}, p...)
-				cli.Write(append(f, 0xff))
+		return dest{3, []byte(s), "pub-name:" + s}
+	}
+	// IP-literal local destinations (dropped for a user without the flag) followed by domain-named and
+	// public-IP destinations: the later ones must not inherit anything from the earlier ones
+	seq := []dest{pub, name("example.com"),
+		loop4, name("example.com"), pub,
+		loopLast, name("a.example.com"),
+		loopM, name("EXAMPLE.com"), pubM,
+		loop6, name("pub.test"),
+		un4, name("example.com"), un6, name("pub.test"), unM, name("a.example.com"),
+		name("localhost"), name("example.com"), name("LOCALHOST"), pub, name("LocalHost"), name("pub.test"),
+		empty, name("example.com")}
+	if hasPriv {
+		seq = append(seq, priv6, name("example.com"), priv6, pub, name("pub.test"))
+	}
+	seq = append(seq, loop4, pub) // the last one is the sentinel
+
+	arrivals := make(chan arrival, 1024)
+	ports := make([]int, len(seq))
+	var all []*net.UDPConn
+	for i := range seq {
+		p, conns := openPort(hasPriv, arrivals)
+		if conns == nil {
+			r.Rep.Notes["relay-end-to-end"] = "skipped: cannot bind a port on every local address"
+			for _, u := range all {
+				u.Close()
 			}
-		}()
-		for _, d := range seq {
-			p := append([]byte{0, 0, 0}, d.withPort(sk.port)...)
-			pkts = append(pkts, vh.Hex(append(p, 'P', 0)))
+			return
 		}
-		arrived := map[int]bool{}
-		deadline := time.After(2 * time.Second)
-	wait:
-		for {
-			select {
-			case b := <-got:
-				if len(b) == 2 && b[0] == 'P' {
-					arrived[int(b[1])] = true
-					if int(b[1]) == len(seq)-1 {
-						break wait
+		ports[i] = p
+		all = append(all, conns...)
+	}
+	defer func() {
+		for _, u := range all {
+			u.Close()
+		}
+	}()
+	r.Rep.Notes["relay-end-to-end"] = fmt.Sprintf("%d datagrams per association, each on its own port, %d listeners (every port on 127.0.0.1, 127.255.255.254, ::1, fd00::2, 192.0.2.2); both relay modes", len(seq), len(all))
+
+	pkt := func(i int) []byte {
+		p := append([]byte{0, 0, 0}, seq[i].withPort(ports[i])...)
+		return append(p, 'P', byte(i))
+	}
+	var pktsHex []string
+	for i := range seq {
+		pktsHex = append(pktsHex, vh.Hex(pkt(i)))
+	}
+
+	for _, mode := range []socks5.UDPAssociateMode{socks5.UDPAssociateModePacketOverStream, socks5.UDPAssociateModeDatagram} {
+		modeName, stop := "stream", 1
+		if mode == socks5.UDPAssociateModeDatagram {
+			modeName, stop = "datagram", 0
+		}
+		for _, u := range userNames {
+			s := c.server(mode)
+			cli, srv := net.Pipe()
+			done := make(chan struct{})
+			go func() { s.ServeConn(userConn{srv, u}); close(done) }()
+			cli.SetDeadline(time.Now().Add(6 * time.Second))
+			req := append([]byte{5, 3, 0}, pub.withPort(ports[0])...)
+			go cli.Write(req)
+			rep := make([]byte, 10)
+			if _, err := io.ReadFull(cli, rep); err != nil || rep[1] != 0 || rep[3] != 1 {
+				failOnce(r, "allowed-associate-affected", fmt.Sprintf("UDP ASSOCIATE (%s mode) to the public stand-in by %q refused: %v %v", modeName, u, rep, err), map[string]interface{}{"user": u, "mode": modeName})
+				cli.Close()
+				<-done
+				continue
+			}
+			var uc *net.UDPConn
+			if mode == socks5.UDPAssociateModePacketOverStream {
+				go func() {
+					for i := range seq {
+						p := pkt(i)
+						f := append([]byte{0, byte(len(p) >> 8), byte(len(p))}, p...)
+						if _, err := cli.Write(append(f, 0xff)); err != nil {
+							return
+						}
+					}
+				}()
+			} else {
+				relayPort := int(rep[8])<<8 | int(rep[9])
+				var err error
+				uc, err = net.DialUDP("udp", nil, &net.UDPAddr{IP: net.IPv4(127, 0, 0, 1), Port: relayPort})
+				if err != nil {
+					failOnce(r, "allowed-associate-affected", "cannot reach the datagram-mode relay socket: "+err.Error(), map[string]interface{}{"user": u})
+					cli.Close()
+					<-done
+					continue
+				}
+				for i := range seq {
+					uc.Write(pkt(i))
+					if i%4 == 3 {
+						time.Sleep(time.Millisecond) // stay below the socket buffer
 					}
 				}
-			case <-deadline:
-				break wait
 			}
+			var arr []arrival
+			deadline := time.After(3 * time.Second)
+		wait:
+			for {
+				select {
+				case a := <-arrivals:
+					arr = append(arr, a)
+					if a.idx == len(seq)-1 {
+						break wait
+					}
+				case <-deadline:
+					break wait
+				}
+			}
+			time.Sleep(30 * time.Millisecond)
+			for len(arrivals) > 0 {
+				arr = append(arr, <-arrivals)
+			}
+			if uc != nil {
+				uc.Close()
+			}
+			cli.Close()
+			<-done
+
+			f, known := c.users[u]
+			if u == "" {
+				known = false
+			}
+			mayLoop, mayPriv := known && f[1], known && f[0]
+			seen := map[int]bool{}
+			for _, a := range arr {
+				if a.idx >= len(seq) {
+					continue
+				}
+				seen[a.idx] = true
+				d := seq[a.idx]
+				cs := map[string]interface{}{"user": u, "mode": modeName, "assoc": hex.EncodeToString(req), "datagrams": pktsHex, "index": a.idx,
+					"header_dest": d.tag, "header": hex.EncodeToString(d.withPort(ports[a.idx])), "arrived_at": fmt.Sprintf("%s port %d", a.addr, a.port)}
+				// the property itself: whatever the header named, nothing may reach a loopback / private address
+				if a.kind == "loop" && !mayLoop || a.kind == "priv" && !mayPriv {
+					failOnce(r, "udp-relay-datagram-reached-local-listener:"+a.kind, fmt.Sprintf("%s mode, user %q without the permission: datagram #%d (header %s) arrived at %s:%d", modeName, u, a.idx, d.tag, a.addr, a.port), cs)
+					if expectKind(d) == a.kind {
+						failOnce(r, "udp-relay-datagram-to-local-dest:"+strings.SplitN(d.tag, "/", 2)[0], fmt.Sprintf("datagram relayed to %s in a UDP association (%s mode) of user %q without the permission", d.tag, modeName, u), cs)
+					}
+				} else if a.kind != expectKind(d) || a.port != ports[a.idx] {
+					failOnce(r, "udp-relay-datagram-misdelivered", fmt.Sprintf("%s mode, user %q: datagram #%d with header %s port %d arrived at %s:%d", modeName, u, a.idx, d.tag, ports[a.idx], a.addr, a.port), cs)
+				}
+			}
+			var obs []string
+			for i, d := range seq {
+				if seen[i] {
+					obs = append(obs, fmt.Sprintf("%d", i))
+				}
+				_, isLocal := expect(c, u, 1, d) // a datagram's destination is judged like a CONNECT to it
+				r.Distinct(fmt.Sprintf("R|%s|%s|%s|%v", modeName, d.tag, u, seen[i]))
+				r.Count("R/" + modeName + "/datagram")
+				if !isLocal && !seen[i] && (expectKind(d) == "pub" || d.tag == "loop/v4" || d.tag == "name:localhost") {
+					failOnce(r, "allowed-datagram-affected", fmt.Sprintf("%s mode: datagram #%d to %s by user %q did not arrive", modeName, i, d.tag, u), map[string]interface{}{"user": u, "mode": modeName, "datagrams": pktsHex, "index": i})
+				}
+			}
+			r.Case(fmt.Sprintf("R %s %d %s", vh.Hex([]byte(u)), stop, strings.Join(pktsHex, ",")), "sent "+strings.Join(obs, " "))
 		}
-		time.Sleep(20 * time.Millisecond)
-		for len(got) > 0 {
-			b := <-got
-			if len(b) == 2 && b[0] == 'P' {
-				arrived[int(b[1])] = true
-			}
-		}
-		cli.Close()
-		<-done
-		var obs []string
-		for i, d := range seq {
-			if arrived[i] {
-				obs = append(obs, fmt.Sprintf("%d", i))
-			}
-			_, isLocal := expect(c, u, 1, d) // a datagram's destination is judged like a CONNECT to it
-			r.Distinct(fmt.Sprintf("R|%s|%s|%v", d.tag, u, arrived[i]))
-			r.Count("R/datagram")
-			if isLocal && arrived[i] {
-				failOnce(r, "udp-relay-datagram-to-local-dest:"+strings.SplitN(d.tag, "/", 2)[0], fmt.Sprintf("datagram relayed to %s in a UDP association of user %q without the permission", d.tag, u),
-					map[string]interface{}{"user": u, "assoc": hex.EncodeToString(req), "datagram_dest": d.tag})
-			}
-			if !isLocal && !arrived[i] && d.atyp != 3 {
-				failOnce(r, "allowed-datagram-affected", fmt.Sprintf("datagram to %s by user %q did not arrive", d.tag, u), map[string]interface{}{"user": u, "datagram_dest": d.tag})
-			}
-		}
-		r.Case(fmt.Sprintf("R %s 1 %s", vh.Hex([]byte(u)), strings.Join(pkts, ",")), "sent "+strings.Join(obs, " "))
 	}
 }
